@@ -249,7 +249,10 @@ def handleStart (cfg : Cfg) (s : Sys) (g : Gen) (id : Id) (k : OpKind) : Sys × 
   match k with
   | .invalid => (emit s (.started g id k), [.result id g 0, .complete id g])
   | .query | .mutation =>
-    (emit (emit s (.started g id k)) (.exec g k), [.result id g 0, .complete id g])
+    -- the executor refuses to call resolvers once the connection's context is cancelled
+    -- (executor.go executeField: `e.Context.Err()`); the operation is answered with that error
+    let s := emit s (.started g id k)
+    (if s.ctxCancelled then s else emit s (.exec g k), [.result id g 0, .complete id g])
   | .subscription | .subFail =>
     let s? : Option Sys :=
       match findSub s.subs id with
